@@ -15,6 +15,10 @@ def run(ctx: Ctx) -> None:
     from ..tables import t6_transforms
     t6_transforms.run_regrid(ctx, bspline=True, dense=False)  # refining a free-form deformation's image grid keeps the function
     ctx.floor("T6x.regrid", 2)
+    from ..tables import t5_derivs
+    with ctx.only("T5.bspline"):  # derivative modes return the analytic spline derivatives (anisotropic spacing, strides, order 1 and 2)
+        t5_derivs.run_derivatives(ctx)
+    ctx.floor("T5.bspline", 4)
 
 
 def mutants(prog):
